@@ -11,7 +11,7 @@ ROOT=/verif
 OUT=$ROOT/seeded/$ID
 mkdir -p "$OUT"
 cp "$SRC/patch.diff" "$OUT/patch.diff"; cp "$SRC/demo_test.go" "$OUT/demo_test.go"; cp "$SRC/notes.md" "$OUT/notes.md" 2>/dev/null
-WT=/tmp/sw-$ID
+WT=/tmp/sw-$ID-$$
 git -C /repo worktree remove --force "$WT" 2>/dev/null
 git -C /repo worktree add -q "$WT" HEAD || exit 2
 cp "$OUT/demo_test.go" "$WT/$PKG/zz_seed_demo_test.go"
